@@ -58,7 +58,11 @@ ExpandOut(x, H, msg, dst, len) == IF IsXmd(x) THEN XmdOut(x, H, msg, dst, len) E
 InDomain(e, len) == Len(e.dst) <= 255 /\ len <= 65535
 MustAbort(x, len) == IsXmd(x) /\ Ell(x, len) > 255
 
+(* requests beyond 255 output blocks - however large the requested length - abort (XMD) *)
+HugeAbort(e) == IsXmd(e.x) /\ Lt(FromInt(255 * OutBytes(e.x)), e.lenbig)
 JudgeExpand(e) ==
+  IF "lenbig" \in DOMAIN e THEN (Len(e.dst) <= 255 /\ HugeAbort(e)) => e.out.aborted
+  ELSE
   InDomain(e, e.len) =>
     IF MustAbort(e.x, e.len) THEN e.out.aborted
     ELSE LET r == TLCEval(ExpandOut(e.x, e.out.H, e.msg, e.dst, e.len)) IN
